@@ -238,11 +238,25 @@ def check_signals(cfg, events, before, after):
     return True, ""
 
 
+def _zw_only(ref, r):
+    """classification aid only: does the display row `r` of the reference hold zero-width characters only?
+    Also counted: zero-width characters followed by one space on a row that was broken inside a word
+    (wrap 'space', the reference pulls the word up behind that space; urwid keeps the space as the wrap
+    point of a row of zero-width characters, e.g. b'\xcc\x81 aaa' at width 1)."""
+    if not r.cells or r.cells[0][2] != 0:
+        return False
+    wide = [(i, w) for (i, _x, w) in r.cells if w > 0]
+    if not wide:
+        return True
+    disp = ref.display()
+    return ref.wrap == "space" and r.end is None and len(wide) == 1 and wide[0][0] == r.cells[-1][0] and disp[wide[0][0]] == " "
+
+
 def _zw_row(ref):
     """classification aid only (never used by an oracle): does some display row consist of zero-width
     characters only?  urwid leaves such characters out of its layout (see the final report)."""
     rows = ref.rows()
-    return bool(rows) and any(r.cells and all(w == 0 for (_i, _x, w) in r.cells) for r in rows)
+    return bool(rows) and any(_zw_only(ref, r) for r in rows)
 
 
 def _zw_at(ref):
@@ -256,7 +270,7 @@ def _zw_at(ref):
         return out
     ncap = len(ref.caption)
     for r in rows:
-        if r.cells and all(w == 0 for (_i, _x, w) in r.cells):
+        if _zw_only(ref, r):
             on_row = {ref.from_disp(d) for (d, _x) in r.positions() if d >= ncap}
             if ref.pos in on_row:
                 out.add("cursor")
